@@ -42,7 +42,7 @@ type consoleLine struct {
 func init() {
 	consts := []int64{keyCtrlC, keyCtrlD, keyCtrlU, keyEnter, keyEscape, keyBackspace, keyUnknown, keyUp, keyDown,
 		keyLeft, keyRight, keyAltLeft, keyAltRight, keyHome, keyEnd, keyDeleteWord, keyDeleteLine,
-		keyClearScreen, keyPasteStart, keyPasteEnd, 0xFFFD, maxLineLength, int64(len(Terminal{}.inBuf))}
+		keyClearScreen, keyPasteStart, keyPasteEnd, 0xFFFD, int64(len(Terminal{}.inBuf))}
 	verifModes["console"] = func(in *bufio.Scanner, out *json.Encoder) error {
 		for in.Scan() {
 			var c consoleCase
